@@ -101,7 +101,7 @@ def edits(obj):
     elif isinstance(obj, set):
         yield lambda: obj.add(x)
         yield lambda: obj.clear()
-    elif isinstance(obj, dict):
+    elif isinstance(obj, (dict, __import__("collections").ChainMap)):
         yield lambda: obj.clear()
         yield lambda: obj.__setitem__(x, x)
         for k in list(obj):
@@ -123,6 +123,26 @@ def edits(obj):
                         yield lambda f=f, args=args: f(*args)
 
 
+class WithObserver:
+    """a collection handed out together with an extra observation to repeat afterwards"""
+
+    def __init__(self, col, extra):
+        self.col, self.extra = col, extra
+
+
+_AGED_FILTERS = [(lambda e, w, _k=k: True) for k in range(300)]      # 300 distinct, long-lived filter callables
+
+
+def _aged(u, vs, es, L):
+    """the answer for ONE filter, asked again after 299 other filters were used on the same vertex (a memo that
+    ages its entries must still hand out copies); the extra observer repeats exactly that question"""
+    v = vs[0]
+    for f in _AGED_FILTERS:
+        helpers.neighbors(v, helpers.DIR_SENS_FORWARD, helpers.LNK_UNKNOWN_NEIGHBOR, f)
+    ask = lambda: helpers.neighbors(v, helpers.DIR_SENS_FORWARD, helpers.LNK_UNKNOWN_NEIGHBOR, _AGED_FILTERS[0])  # noqa: E731
+    return WithObserver(ask(), ask)
+
+
 # exchange points handing a collection OUT: name -> function(world) -> the collection
 OUT = [
     ("Vertex.links", lambda u, vs, es, L: vs[0].links),
@@ -138,6 +158,7 @@ OUT = [
     ("bft", lambda u, vs, es, L: breadthfirst.bft(u, vs[0])),
     ("dft_recursive", lambda u, vs, es, L: depthfirst.dft_recursive(u, vs[0])),
     ("dft_iterative", lambda u, vs, es, L: depthfirst.dft_iterative(u, vs[0])),
+    ("neighbors re-asked after 299 other filters", _aged),
     ("unlink(destroy=False)", None),     # handled below: it mutates the graph
 ]
 
@@ -152,28 +173,40 @@ def out_rows():
             for warm in ((False, True) if caching else (False,)):
                 # count the edits on a throw-away world, then run each on a fresh one
                 u, vs, es, L = world(caching)
-                n = sum(1 for _ in edits(get(u, vs, es, L)))
+                c0 = get(u, vs, es, L)
+                n = sum(1 for _ in edits(c0.col if isinstance(c0, WithObserver) else c0))
                 leaks = False
+
+                def take(u, vs, es, L):
+                    r = get(u, vs, es, L)
+                    return (r.col, r.extra) if isinstance(r, WithObserver) else (r, None)
+
+                def look(u, vs, es, L, extra):
+                    nm = Namer()
+                    o = observe(u, vs, es, L, nm)
+                    if extra is not None:
+                        o.append(tuple(nm(x) for x in extra()))
+                    return o
                 for i in range(n):
                     # the reference: an identically built world in which the caller edits nothing
                     u, vs, es, L = world(caching)
                     if warm:
                         observe(u, vs, es, L)
-                        get(u, vs, es, L)
-                    get(u, vs, es, L)
-                    expected = observe(u, vs, es, L)
+                        take(u, vs, es, L)
+                    _col, extra = take(u, vs, es, L)
+                    expected = look(u, vs, es, L, extra)
                     # the same again, with the edit
                     u, vs, es, L = world(caching)
                     if warm:
                         observe(u, vs, es, L)        # every memo is warm: the collection comes from a cache HIT
-                        get(u, vs, es, L)
-                    col = get(u, vs, es, L)          # (cold: the collection comes from a MISS)
+                        take(u, vs, es, L)
+                    col, extra = take(u, vs, es, L)  # (cold: the collection comes from a MISS)
                     ed = list(edits(col))[i]
                     try:
                         ed()
                     except (TypeError, AttributeError):
                         pass                        # immutable: nothing happened
-                    if observe(u, vs, es, L) != expected:
+                    if look(u, vs, es, L, extra) != expected:
                         leaks = True
                 rows.append((k, "%s / caching %s%s" % (name, {False: "off", True: "on", "class": "on for one class"}[caching],
                                                         ", warm memos" if warm else ""), leaks))
@@ -282,6 +315,27 @@ def in_rows(k0):
         return [res], lambda: (tuple(id(x) for x in a.links), tuple(id(x) for x in b.links), tuple(id(x) for x in e.vertices),
                                tuple(id(x) for x in keep.vertices), tuple(sorted(id(x) for x in helpers.find_links(a, b))))
 
+    def b_laws_whitelist_chainmap(caching):
+        import collections
+        Vertex.NEIGHBOR_CACHING = caching
+        common = {Vertex: DirectedEdge}
+        own = {}
+        inner = collections.ChainMap(own, common)        # a layered rule set: the caller keeps both layers
+        arg = {Vertex: inner}
+        L = UniverseLaws(edge_whitelist=arg)
+        return [arg, own, common], lambda: tuple((id(k), tuple((id(a), id(b)) for a, b in i.items())) for k, i in L.edge_whitelist.items())
+
+    def b_laws_whitelist_ordered(caching):
+        import collections
+        Vertex.NEIGHBOR_CACHING = caching
+        inner = collections.OrderedDict([(Vertex, DirectedEdge)])
+        dd = collections.defaultdict(dict)
+        dd[Vertex] = inner
+        L = UniverseLaws(edge_whitelist=dd)
+        return [dd, inner], lambda: tuple((id(k), tuple((id(a), id(b)) for a, b in i.items())) for k, i in L.edge_whitelist.items())
+
+    case("UniverseLaws(edge_whitelist=dict of ChainMaps)", b_laws_whitelist_chainmap)
+    case("UniverseLaws(edge_whitelist=defaultdict of OrderedDicts)", b_laws_whitelist_ordered)
     case("Vertex(universes=list)", b_vertex_universes)
     case("Vertex(links=list)", b_vertex_links)
     case("Link(vertices=list)", b_link_vertices)
